@@ -20,6 +20,8 @@ func ixSpec(name string, withIndexes bool) adapt.TableSpec {
 			{Name: "gsi1", Hash: "g", HashT: ixTypes["g"]},
 			{Name: "gsi2", Hash: "g", HashT: ixTypes["g"], Range: "s", RangeT: ixTypes["s"]},
 			{Name: "lsi1", Hash: "h", HashT: ixTypes["h"], Range: "s", RangeT: ixTypes["s"], Local: true},
+			// a second local index (sparse on another attribute, so the two hold different numbers of items)
+			{Name: "lsi2", Hash: "h", HashT: ixTypes["h"], Range: "g", RangeT: ixTypes["g"], Local: true},
 			// an "inverted" index: its key attributes are the table's own key attributes
 			{Name: "gsi4", Hash: "r", HashT: ixTypes["r"], Range: "h", RangeT: ixTypes["h"]},
 		}
@@ -66,7 +68,8 @@ func ixV(attr, text string) val.V {
 // and pagination then run through the typed code paths. Returns the function that restores the string pools.
 func useTypedPools(r *rand.Rand) func() {
 	h, rg, g, s, t := ixHashPool, ixRangePool, ixGPool, ixSPool, ixTypes
-	nums := []string{"1", "10", "9", "2", "-1", "1.5", "100", "0.5", "-10", "1E1"}
+	// numerals in several notations (upper-case exponent with sign, fractional mantissa, trailing zero)
+	nums := []string{"1", "10", "9", "2.5E1", "-1", "1.5E+10", "1.50E2", "0.5", "-10", "1E1"}
 	bins := []string{"\x01", "\x0a", "\x09", "\x0a\x00", "a", "ab", "\xff", "\x00"}
 	ixTypes = map[string]string{}
 	pick := func(attr string, pS int) {
